@@ -4,7 +4,7 @@
    that loses it (operator flipped the wrong way, off-by-one in `half`, swapped box bound) breaks the proof. *)
 From Coq Require Import ZArith List Bool Lia Arith PeanoNat.
 Import ListNotations.
-Require Import MV.C11.Ext MV.C11.Heap MV.C11.Gen MV.C11.ProofsHeap.
+Require Import MV.C11.Ext MV.C11.Heap MV.C11.Gen MV.C11.Model MV.C11.ProofsHeap.
 Open Scope Z_scope.
 
 (* ---------------------------------------------------------------- order on ext *)
@@ -227,3 +227,7 @@ Proof. intros H E. subst d. vm_compute in H. discriminate. Qed.
 
 Lemma pq_front_cons d : d <> [] -> pq_front d = Some (nth 0 d item_dummy).
 Proof. destruct d; [congruence|reflexivity]. Qed.
+
+(* ---------------------------------------------------------------- the constructor keeps a private copy of its input *)
+Lemma self_points_at_build at_build now : MV.C11.Model.self_points at_build now = at_build.
+Proof. unfold MV.C11.Model.self_points. reflexivity. Qed.
